@@ -210,6 +210,64 @@ Proof. exact crystal_index_bounds. Qed.
 Example C02_crystal_nonvacuous : in_window KTP 1.55 /\ temp_ok 20 /\ unit_vec (0, 0, 1).
 Proof. unfold in_window, temp_ok, unit_vec, vnorm2, vdot, vx, vy, vz; cbn. repeat split; Lra.lra. Qed.
 
+(* ---- the 1e-6 rad walk-off clause in REAL arithmetic (C02_walkoff_truncation_partial with an explicit third-derivative bound
+   |d^3 n / d theta^3| <= 29500 for 1 <= n_o, n_e <= 4, Proofs/C02_walkoff_bound.v): for every uniaxial medium in that index
+   range, every crystal azimuth, every unit beam direction d and every crystal angle |theta| <= 90 deg, the walk-off the code
+   computes — atan of minus its central difference quotient (own step eps^(1/3)|theta|) over the index, all operations exact —
+   is within 1e-6 rad of the closed form for the direction-dependent polarization and exactly 0 for the other one.
+   For a pump along z the closed form is the property's atan(1/2 n^2 (1/ne^2 - 1/no^2) sin 2 theta).
+   What remains measured, not proved: the binary64 rounding of the quotient (about eps n / h; this — not the truncation — is
+   why the property starts at 12 deg), checked every run by the interval goals and the 60-digit oracle. *)
+From SpdVerif Require Import Proofs.C02_walkoff_bound Proofs.C02_walkoff_crystal.
+
+Theorem C02_walkoff_1e6_real : forall no ne phi d theta p,
+  1 <= no <= 4 -> 1 <= ne <= 4 -> unit_vec d -> Rabs theta <= PI / 2 ->
+  (direction_dependent no ne p ->
+     Rabs (walkoff_gen (fun t => index_along_gen t phi no no ne d p) theta - walkoff_uniaxial_general no ne d theta) <= 1e-6) /\
+  (direction_independent no ne p ->
+     walkoff_gen (fun t => index_along_gen t phi no no ne d p) theta = 0).
+Proof. exact walkoff_1e6_real. Qed.
+
+Theorem C02_walkoff_1e6_real_pump : forall no ne phi theta p,
+  1 <= no <= 4 -> 1 <= ne <= 4 -> Rabs theta <= PI / 2 -> direction_dependent no ne p ->
+  Rabs (walkoff_gen (fun t => index_along_gen t phi no no ne (0, 0, 1) p) theta - walkoff_uniaxial_closed no ne theta) <= 1e-6.
+Proof. exact walkoff_1e6_real_pump. Qed.
+
+(* every built-in uniaxial crystal, in-window wavelength, temperature in [-50, 200] C: generated tables + generated index_along *)
+Theorem C02_walkoff_1e6_real_crystal : forall c l T phi d theta p,
+  in_window c l -> temp_ok T -> unit_vec d -> Rabs theta <= PI / 2 ->
+  dependent_polarization (meta_axis (get_meta c)) = Some p ->
+  Rabs (walkoff_gen (fun t => crystal_index c l T t phi d p) theta -
+        walkoff_uniaxial_general (nx_of c l T) (nz_of c l T) d theta) <= 1e-6 /\
+  walkoff_gen (fun t => crystal_index c l T t phi d (match p with Ordinary => Extraordinary | Extraordinary => Ordinary end)) theta = 0.
+Proof. exact walkoff_1e6_real_crystal. Qed.
+
+Theorem C02_walkoff_third_derivative_bound : forall no ne dx dz,
+  1 <= no <= 4 -> 1 <= ne <= 4 -> dx * dx + dz * dz <= 1 -> forall t,
+  Rabs (Coquelicot.Derive.Derive_n (C02_walkoff.n_of no ne dx dz) 3 t) <= 29500.
+Proof. exact third_derivative_bound. Qed.
+
+Example C02_walkoff_nonvacuous : 1 <= 1.66 <= 4 /\ 1 <= 1.55 <= 4 /\ Rabs 0.5 <= PI / 2 /\ direction_dependent 1.66 1.55 Extraordinary /\
+  dependent_polarization (meta_axis (get_meta BBO_1)) = Some Extraordinary.
+Proof.
+  pose proof PI2_1. repeat split; try Lra.lra.
+  - rewrite Rabs_right; Lra.lra.
+  - left. split; [Lra.lra | reflexivity].
+Qed.
+
+(* ---- walk-off closed form for ANY medium (biaxial included), away from the optic axes (exact discriminant > 0), any unit beam:
+   -(1/n) dn/dtheta = 1/2 n^2 y',  y' = (b' -/+ (2 b b' - 4 c')/(2 sqrt D))/2 with b', c' explicit in the crystal-frame direction
+   and its theta-derivative (Proofs/C02_walkoff_biaxial.v).  Exact derivative; the code's central difference is within
+   M h^2/(6 n) of it by C02_walkoff_truncation_partial (no explicit M is proved for the biaxial index). *)
+From SpdVerif Require Import Proofs.C02_walkoff_biaxial.
+
+Theorem C02_walkoff_biaxial_partial : forall phi nx ny nz d p t,
+  0 < nx -> 0 < ny -> 0 < nz -> unit_vec d ->
+  0 < fdisc (inv2 nx) (inv2 ny) (inv2 nz) (vx (sfun phi d t) * vx (sfun phi d t)) (vy (sfun phi d t) * vy (sfun phi d t))
+            (vz (sfun phi d t) * vz (sfun phi d t)) ->
+  walkoff_exact (fun u => index_model u phi nx ny nz d p) t = walkoff_biaxial_closed phi nx ny nz d p t.
+Proof. exact (fun phi nx ny nz d p t Hx Hy Hz Hd => walkoff_biaxial phi nx ny nz d Hx Hy Hz Hd p t). Qed.
+
 Print Assumptions C02_disc_nonneg.
 Print Assumptions C02_roots_of_fresnel.
 Print Assumptions C02_interlace.
@@ -234,3 +292,8 @@ Print Assumptions C02_walkoff_truncation_partial.
 Print Assumptions C02_walkoff_defined.
 Print Assumptions C02_crystal_index_is_fresnel.
 Print Assumptions C02_crystal_index_bounds.
+Print Assumptions C02_walkoff_1e6_real.
+Print Assumptions C02_walkoff_1e6_real_pump.
+Print Assumptions C02_walkoff_1e6_real_crystal.
+Print Assumptions C02_walkoff_third_derivative_bound.
+Print Assumptions C02_walkoff_biaxial_partial.
